@@ -49,6 +49,10 @@ class VPool:
 
 
 class World:
+    def dsid(self, name: str) -> DatasetId:
+        """datasets of different tasks by default; in 'siblings' scenarios they are outputs of one task"""
+        return DatasetId("t", name) if self.scenario.get("siblings") else DatasetId(name, "0")
+
     def __init__(self, scenario: dict, faults: int, early_ticks: int = 0):
         for mod, names in (
             (comms, ("zmq", "get_context")), (ds_mod, ("ThreadPoolExecutor", "wait", "time_ns", "shm_api")),
@@ -167,7 +171,7 @@ class World:
         # initial contents
         self.data = {}
         for (h, name) in scenario["initial"]:
-            d = DatasetId(name, "0")
+            d = self.dsid(name)
             self.data[d] = (f"bytes-of-{name}".encode(), f"des.{name}")
             self._put(h, d)
 
@@ -223,7 +227,7 @@ class World:
     def cmd_frames(self, i):
         c = self.scenario["commands"][i]
         kind = c[0]
-        d = DatasetId(c[1], "0")
+        d = self.dsid(c[1])
         # the controller numbers its acknowledged sends with one counter over all hosts and message kinds, independently
         # of the transmit idx: small numbers on both sides, so the two number spaces overlap (offset per scenario)
         syn = self.scenario.get("ctrl_syn_offset", 1) + i
@@ -244,7 +248,7 @@ class World:
         c = self.scenario["commands"][i]
         if c[0] != "purge":
             return True
-        d = DatasetId(c[1], "0")
+        d = self.dsid(c[1])
         host = c[2]
         if self.scenario.get("purge_guard", {}).get(str(i)) == "after-announcement":
             # the executor forwards a purge only for datasets it has seen published on its host
@@ -426,7 +430,7 @@ class World:
             return out  # a guarded command never became enabled (e.g. after a crash): nothing to conclude at the end
         for exp in sc["expect"]:
             kind = exp[0]
-            d = DatasetId(exp[1], "0")
+            d = self.dsid(exp[1])
             if kind == "held":
                 _, _, h = exp
                 got = self.holds(h, d)
@@ -568,6 +572,10 @@ def batch_pass_check() -> tuple[int, list]:
         for (m, c, msg_) in v:
             viols.setdefault((m, c), (msg_, {"batch": True, "choices": choices}))
     return runs, [(m, c, msg_, rp) for (m, c), (msg_, rp) in viols.items()]
+
+
+for _n in ("T(d),T(e);purge(e)@A", "T(d),T(e)"):
+    SCENARIOS[_n + " siblings"] = dict(SCENARIOS[_n], siblings=True)
 
 
 def build_after(w: "World") -> list:
